@@ -441,6 +441,11 @@ func (p *PHYPayload) DecryptFRMPayload(key AES128Key) error {
 		return errors.New("lorawan: MACPayload must be of type *MACPayload")
 	}
 
+	// nothing to decode
+	if len(macPL.FRMPayload) == 0 {
+		return nil
+	}
+
 	// the FRMPayload contains MAC commands, which we need to unmarshal
 	var err error
 	if macPL.FPort != nil && *macPL.FPort == 0 {
